@@ -175,7 +175,11 @@ func c17Exec(run *ev.Run, c ev.Case) {
 		case "discovery":
 			r := rng(b.Seed, "c17disc")
 			for i := 0; i < b.Count; i++ {
-				c17Discovery(run, c17Disc{Seed: r.Int63(), FailAt: r.Intn(6), FailKind: []string{"cc", "empty", "cancel", "lost-forever"}[r.Intn(4)], Change: r.Intn(3) > 0, NewSession: r.Intn(3) == 0})
+				d := c17Disc{Seed: r.Int63(), FailAt: r.Intn(6), FailKind: []string{"cc", "empty", "cancel", "lost-forever"}[r.Intn(4)], Change: r.Intn(3) > 0, NewSession: r.Intn(3) == 0}
+				if r.Intn(4) == 0 {
+					d.FirstSession, d.FailAt, d.NewSession, d.Change = true, 0, r.Intn(4) > 0, r.Intn(5) > 0
+				}
+				c17Discovery(run, d)
 			}
 		case "conn":
 			for second := 0; second < len(c17Cmds); second++ {
@@ -427,6 +431,9 @@ type c17Disc struct {
 	FailKind   string // cc | empty | cancel | lost-forever
 	Change     bool   // the BMC advertises different records the second time
 	NewSession bool   // the second retrieval is the discovery inside NewV2Session
+	// FirstSession: the first action is a complete NewV2Session with discovery (which succeeds)
+	// instead of a bare retrieval; the BMC's advertisement may change before the second one
+	FirstSession bool `json:",omitempty"`
 }
 
 func c17Discovery(run *ev.Run, o c17Disc) {
@@ -451,7 +458,18 @@ func c17Discovery(run *ev.Run, o c17Disc) {
 		// always advertise suite 3 so that the session variant can go through
 		return append(recs, refbmc.SuiteRecord{ID: 3, Auth: 1, Integs: []byte{1}, Confs: []byte{1}})
 	}
-	dataA, dataB := refbmc.EncodeSuiteRecords(genRecs()), refbmc.EncodeSuiteRecords(genRecs())
+	recsA, recsB := genRecs(), genRecs()
+	if o.FirstSession {
+		// suite 17 present or absent, independently before and after
+		s17 := refbmc.SuiteRecord{ID: 17, Auth: 3, Integs: []byte{4}, Confs: []byte{1}}
+		if r.Intn(2) == 0 {
+			recsA = append([]refbmc.SuiteRecord{s17}, recsA...)
+		}
+		if r.Intn(2) == 0 {
+			recsB = append(recsB, s17)
+		}
+	}
+	dataA, dataB := refbmc.EncodeSuiteRecords(recsA), refbmc.EncodeSuiteRecords(recsB)
 	if !o.Change {
 		dataB = dataA
 	}
@@ -531,7 +549,14 @@ func c17Discovery(run *ev.Run, o c17Disc) {
 	ctx1, c1 := e.LimitCtx(80)
 	cancelFirst = c1
 	var firstErr error
-	pv, st := safe(func() { _, firstErr = bmc.RetrieveSupportedCipherSuites(ctx1, e.ST) })
+	pv, st := safe(func() {
+		if o.FirstSession {
+			_, firstErr = e.ST.NewV2Session(ctx1, &bmc.V2SessionOpts{SessionOpts: bmc.SessionOpts{Username: cfg.Username, Password: cfg.Password, MaxPrivilegeLevel: ipmi.PrivilegeLevelAdministrator},
+				CipherSuites: sessionPrefs})
+			return
+		}
+		_, firstErr = bmc.RetrieveSupportedCipherSuites(ctx1, e.ST)
+	})
 	c1()
 	if pv != nil {
 		run.Violation("C17:discovery:panic:"+panicSite(st), fmt.Sprintf("first retrieval panicked: %v", pv), cs, nil)
@@ -544,7 +569,7 @@ func c17Discovery(run *ev.Run, o c17Disc) {
 	ef, _, cfgf := mk(dataB)
 	fresh := second(ef, cfgf)
 	run.Event("discovery-histories", 1)
-	run.Nontrivial(fmt.Sprintf("disc|%d|%s|%v|%v|%v", o.FailAt, o.FailKind, o.Change, o.NewSession, firstErr != nil))
+	run.Nontrivial(fmt.Sprintf("disc|%d|%s|%v|%v|%v|%v", o.FailAt, o.FailKind, o.Change, o.NewSession, firstErr != nil, o.FirstSession))
 	if o.NewSession {
 		// the outcome is also known in absolute terms (state shared by the whole process would
 		// affect the fresh connection just the same): suite 17 if advertised, else suite 3
@@ -564,7 +589,7 @@ func c17Discovery(run *ev.Run, o c17Disc) {
 		}
 	}
 	if used != fresh {
-		run.Violation("C17:discovery:result-depends-on-history", fmt.Sprintf("cipher suite discovery after an earlier retrieval (failure %s at request %d: err=%v; records changed: %v; through NewV2Session: %v): used connection %q, fresh connection %q", o.FailKind, o.FailAt, firstErr, o.Change, o.NewSession, used, fresh), cs, nil)
+		run.Violation("C17:discovery:result-depends-on-history", fmt.Sprintf("cipher suite discovery after an earlier retrieval (failure %s at request %d: err=%v; records changed: %v; through NewV2Session: %v; first action a complete NewV2Session: %v): used connection %q, fresh connection %q", o.FailKind, o.FailAt, firstErr, o.Change, o.NewSession, o.FirstSession, used, fresh), cs, nil)
 	}
 }
 
